@@ -77,6 +77,14 @@ pub open spec fn segs_wired(p: &Partition) -> bool {
     forall|i: int| 0 <= i < p.segments@.len() ==> seg_wired(#[trigger] &p.segments@[i], p)
 }
 
+// C14: the expiry a topic / partition / segment is created with: the server default stands for the configured expiry
+pub open spec fn expiry_resolved(e: IggyExpiry, c: &SystemConfig) -> IggyExpiry {
+    if e is ServerDefault { c.segment.message_expiry } else { e }
+}
+pub open spec fn part_expiry_is(p: &Partition, e: IggyExpiry, c: &SystemConfig) -> bool {
+    &&& p.message_expiry == e
+    &&& forall|i: int| 0 <= i < p.segments@.len() ==> (#[trigger] p.segments@[i]).message_expiry == expiry_resolved(e, c)
+}
 // C15: what Topic::get_max_topic_size must resolve a requested limit to (from the property statement: the server default
 // stands for the configured limit; a limit smaller than one segment is rejected; anything else is kept as requested)
 pub open spec fn limit_bytes(m: MaxTopicSize) -> u64 {
